@@ -39,9 +39,45 @@ class Ctx:
         shutil.rmtree(self.work, ignore_errors=True)
         os.makedirs(self.work, exist_ok=True)
         self.t0 = time.time()
+        self.source_changed = anchored_sources_changed(pid)
 
     def n(self, quick: int, thorough: int) -> int:
-        return thorough if self.tier == "thorough" else quick
+        """Case count for this tier.  When the anchored source files differ from the ones recorded at the last
+        passing baseline (source_hashes.json), the quick tier explores 5x more (bounded by the thorough count)."""
+        if self.tier == "thorough":
+            return thorough
+        if self.source_changed:
+            return max(quick, min(thorough, quick * 5))
+        return quick
+
+
+def anchored_files(pid: str) -> list[str]:
+    try:
+        for line in open(os.path.join(VERIF, "properties.jsonl")):
+            p = json.loads(line)
+            if p["id"] == pid:
+                return sorted(set(p["anchors"]["files"]))
+    except Exception:
+        pass
+    return []
+
+
+def source_hashes(pid: str) -> dict[str, str]:
+    out = {}
+    for f in anchored_files(pid):
+        try:
+            out[f] = hashlib.sha256(open(os.path.join(REPO, f), "rb").read()).hexdigest()[:16]
+        except OSError:
+            out[f] = "missing"
+    return out
+
+
+def anchored_sources_changed(pid: str) -> bool:
+    try:
+        recorded = json.load(open(os.path.join(VERIF, "source_hashes.json"))).get(pid)
+    except Exception:
+        return False
+    return recorded is not None and recorded != source_hashes(pid)
 
 
 # --------------------------------------------------------------------------- float <-> Coq
@@ -490,6 +526,8 @@ class Verdict:
         evidence["wall_s"] = round(time.time() - ctx.t0, 2)
         os.makedirs(os.path.join(VERIF, "evidence"), exist_ok=True)
         json.dump(evidence, open(os.path.join(VERIF, "evidence", f"{ctx.pid}.json"), "w"), indent=1, default=str)
+        if not os.environ.get("VERIF_KEEP_WORK"):
+            shutil.rmtree(ctx.work, ignore_errors=True)   # generated case files and their .vo are large
         return rc
 
 
